@@ -266,9 +266,10 @@ def rule_sides_from_hdfs_only(prog, fixture=False):
 
 
 def run(ctx):
+    from . import c01
     prog = ctx.prog("dfs", "N")
     return [rule_watford_guard(prog), rule_decision_table(prog), rule_probe_reads(prog), rule_opus_selfcheck(prog),
-            rule_sides_from_hdfs_only(prog)]
+            rule_sides_from_hdfs_only(prog), c01.rule_opus_catalogue_slot(prog, rule_id="R-C13-6")]
 
 
 SELFTESTS = [
